@@ -5,11 +5,14 @@
 ADV = ("rapid-generated scripts (trust configuration x 0-40 events) over the E2 alphabet: deliver/drain/drop/dup of the real peer's frames, "
        "inject of well-formed, out-of-phase, structurally mutated and arbitrary SHIP messages and data frames, virtual-time advances "
        "(1 ms .. 5 min), user approve/cancel, trust/waiting flips, local close, transport error, close propagation, application writes, "
-       "write failure at the k-th write; two real ShipConnections (client+server role) joined by a harness man-in-the-middle on the synctest clock. ")
+       "write failure at the k-th write, a close announce whose confirm cannot be written, the client's init reaching the server before its Run(); two "
+       "real ShipConnections (client+server role) joined by a harness man-in-the-middle on the synctest clock. ")
 
 HUB = ("real hub.Hub instances (own certificates) talking TLS+websocket over loopback, each with a real MdnsManager on the harness mDNS fabric; the "
        "entry hub X learns about hub Y points at a per-pair TCP proxy, so every outbound connection is attributable and can be cut or refused; dial "
-       "back-off scaled to [0,1) s; scenarios run in real time, 8 at a time per process. ")
+       "back-off scaled to [0,1) s; schedule sources: slow links (a dial is on its way for as long as the script says), black holes (whole links or the "
+       "connections that exist), a slow application logger (lines logged at interleaving points take N ms), slow application callbacks; scenarios run "
+       "in real time, 8 at a time per process. ")
 
 CHECKS = {
     "C07": dict(
@@ -133,7 +136,7 @@ CHECKS = {
         level="exploration",
         rule=("rapid-generated races on a real ws.WebsocketConnection over gorilla over an in-memory pipe (synctest bubble): 1-8 writer "
               "goroutines x 1-12 messages, peer reading or stalling after r frames (full queue, pump blocked in write), pipe capacity 16 B .. "
-              "64 KiB, closing event (local close with/without reason, peer close frame, abrupt EOF, failing transport write) placed after "
+              "64 KiB, optionally one empty message and a reader that answers incoming messages with 1-3 writes from inside the delivery, closing event (local close with/without reason, peer close frame, abrupt EOF, failing transport write) placed after "
               "the p-th accepted write with 0-5 scheduler yields. Oracle: every write returns (no panic, no hang), writes started after the "
               "closure fail, and what the peer received is a gap-free prefix consistent with the callers' real-time order (no duplicate, "
               "no corrupt frame, no refused message). non-trivial = >= 2 writers and the close landed before the last write returned; "
@@ -145,11 +148,11 @@ CHECKS = {
     "C13": dict(
         level="fault_enumeration",
         rule=("rapid-generated websocket sessions (0-6 messages each way, optional ping/pong phase after 55 virtual seconds, concurrent "
-              "traffic); each session is first run fault-free to count the R reads and W writes on the socket of the connection under "
+              "traffic, optionally a ping of the peer whose pong is one more write); each session is first run fault-free to count the R reads and W writes on the socket of the connection under "
               "test, then re-run with the k-th read failing for every k<=R+1 (error or EOF), the k-th write failing for every k<=W+1 "
               "(error or short write), a peer close frame (codes 1000..4999), abrupt EOF, local close with and without reason. Oracle: error "
               "reported (non-nil) and closed-query (true, non-nil) after a failure / peer close, no report after a deliberate local close; "
-              "no message delivered afterwards; two virtual minutes later no goroutine inside the ws package and the socket was closed. "
+              "a failed operation has been reported by the time everything has come to rest; no message delivered afterwards; two virtual minutes later no goroutine inside the ws package and the socket was closed. "
               "non-trivial = fault triggered in mid-session (k>1) or concurrent traffic; distinct = hash of (session, cause, k)"),
         runs=[dict(engine="wsfault", test="TestC13", quick=dict(checks=60, shards=4, timeout=600, may_stop_early=False),
                    thorough=dict(checks=3000, shards=16, timeout=3000))],
@@ -158,7 +161,7 @@ CHECKS = {
         level="exploration",
         rule=("rapid-generated service configurations (brand/model/type/serial/identifier/SKI from any valid UTF-8, lengths around the 32-byte "
               "boundary with multi-byte runes straddling it, characters = ; : , and blanks; category lists nil/empty/1-7/out of range; both "
-              "auto-accept values; ports). Oracles: announced TXT values are <= 32 bytes, prefixes of the input and valid UTF-8; the TXT "
+              "auto-accept values; ports; a life cycle of the announcement - unannounce / announce / auto accept changes - before it is read). Oracles: announced TXT values are <= 32 bytes, prefixes of the input and valid UTF-8; the TXT "
               "pushed through the real Avahi provider path (fake daemon -> parseTxt -> entry processing) of a second manager yields an "
               "entry with equal fields; QRCodeText() parsed by an independent reference parser yields exactly the expected fields. "
               "non-trivial = some field > 32 bytes or containing a separator character; distinct = hash of the configuration"),
@@ -172,7 +175,7 @@ CHECKS = {
     "C17": dict(
         level="exploration",
         rule=("rapid-generated resolver histories (1-30 add / add-again / remove events over 5 services and 7 addresses incl. IPv6 link-local and "
-              "duplicates, records with a missing or invalid mandatory field, the local SKI, removes of unknown services), delivered in "
+              "duplicates, records with a missing or invalid mandatory field, re-announcements with a changed descriptive value, the local SKI, removes of unknown services), delivered in "
               "bursts without yielding or separated by quiescence, GOMAXPROCS 1/2/16; real MdnsManager (fake provider) reporting into a real "
               "hub.Hub. Oracle: reference model map ski -> (fields of the first valid add, ordered usable address set); the manager's "
               "entries equal the model after every event and the last VisibleRemoteServicesUpdated list equals the final set. "
@@ -191,7 +194,8 @@ CHECKS = {
         level="exploration",
         rule=("rapid-generated life-cycle scripts (1-25 events: daemon disconnect with/without immediate availability, availability flips, "
               "Announce with 6 TXT variants, Unannounce, manual Shutdown, browse results add/remove at any time incl. during the outage, "
-              "virtual-time advances 100 ms .. 5 s) against the real AvahiProvider with a fake Avahi daemon that mirrors go-avahi's Server "
+              "a service found while the browser is being freed, virtual-time advances 100 ms .. 5 s; in a third of the cases the announcement is requested "
+              "through a real MdnsManager as the hub does) against the real AvahiProvider with a fake Avahi daemon that mirrors go-avahi's Server "
               "(objects invalidated and Disconnected emitted on every connection loss, also on Shutdown()). Oracle: reference model "
               "(desired TXT = latest Announce not followed by Unannounce; manual shutdown flag); whenever the daemon has been reachable "
               "for > 2 virtual seconds: connected, exactly one live browser, the desired announcement present (exactly it on a fresh "
@@ -241,10 +245,12 @@ CHECKS = {
         level="exploration",
         rule=HUB + ("rapid-generated scenarios: SKI order of the two hubs, registration and visibility in any order and timing (incl. all four "
               "at once = simultaneous dials / double connection), optional bystander hub, 0-5 disturbances (DisconnectSKI by either side, TCP cut "
-              "of either proxy, refused TCP connections, mDNS disappearance/reappearance) with pauses 0-1.5 s, then a quiet period. Oracle "
+              "of either proxy, refused TCP connections, mDNS disappearance/reappearance, restart of a hub) with pauses 0-1.5 s, then a quiet period; families: "
+              "denied first then registered within the linger, graceful close whose confirm never comes, slow disconnect notifications with a redial completing "
+              "meanwhile; options: applications that do not let requests wait, upper-case SKIs in TXT records. Oracle "
               "(polled, bound 40 s): both registries hold a completed connection, exactly one TCP connection is alive between the hubs, "
-              "numbered payloads cross in both directions through the latest writers; 'quiescent for 6 s and wrong' = violation, 'still busy "
-              "at the bound' = inconclusive. non-trivial = both hubs dialled or a disturbance hit an established connection; distinct = hash "
+              "numbered payloads cross in both directions through the latest writers; 'quiescent for 6 s and wrong' = violation, ten or more connection attempts after the last "
+              "operation without ever a completed connection on both hubs = livelock (violation), otherwise 'still busy at the bound' = inconclusive. non-trivial = both hubs dialled or a disturbance hit an established connection; distinct = hash "
               "of the scenario"),
         runs=[dict(engine="hubnet", test="TestC05", shrinktime="1s", quick=dict(checks=8, shards=4, timeout=1200),
                    thorough=dict(checks=96, shards=8, timeout=6000), env=dict(VERIF_BATCH="8"))],
@@ -255,7 +261,8 @@ CHECKS = {
         level="exploration",
         rule=HUB + ("rapid-generated scenarios over three hubs: 5-18 operations (register, unregister, cancel pairing, disconnect, shutdown, mDNS "
               "appear/disappear) with pauses 0-1.6 s, so that operations land inside the back-off window of a pending dial as well as after "
-              "it; auto accept off. Oracle on the timestamps of TCP accepts at proxy(X->Y) and of the application callbacks: every outbound "
+              "it, and focused stories (pairing revoked while the dial is on its way over a slow link, the peer silently gone when the pairing is "
+              "removed, cancel while the application is slow and the peer approves); auto accept off. Oracle on the timestamps of TCP accepts at proxy(X->Y) and of the application callbacks: every outbound "
               "connection X->Y and every SetupRemoteDevice(Y) on X happens while Y is registered on X (load-aware grace 400 ms + 4x measured "
               "scheduling overshoot), none after Shutdown() returned, no completed connection to an unregistered SKI at the end. non-trivial "
               "= an unregister/cancel/shutdown was executed after a register; distinct = hash of the scenario"),
